@@ -236,7 +236,8 @@ drf = build.load_pkg()
 kw = %r
 r1 = kw.get('rows', kw.get('r1')); n1 = kw.get('n', kw.get('n1')); r2 = kw.get('r2'); n2 = kw.get('n2', 0)
 r1 = [tuple(x) for x in r1]; r2 = [tuple(x) for x in r2] if r2 else None
-SPF = 1000; B = 10**12                       # 1000 Hz, 1 s files: 1000 samples per file, B is a file boundary
+SPF = 1000; B = int(os.environ.get('VERIF_REPLAY_BASE', 10**12))       # 1000 Hz, 1 s files: 1000 samples per file, B is a file boundary
+if B == 0 and r2: B = SPF
 S = B - (r2[0][0] if r2 else 0) if r2 else B
 if r2 and not (r2[0][0] <= SPF and r2[-1][0] + n2 < r2[0][0] + SPF): print('counterexample does not fit the replay layout'); sys.exit(3)
 top = tempfile.mkdtemp(); ch = os.path.join(top, 'ch'); os.makedirs(ch)
@@ -310,7 +311,22 @@ if truth:
 shutil.rmtree(top)
 sys.exit(1 if bad else 0)
 '''
-READ_REPLAYS = {k: (lambda kw: REPLAY_READ % (kw,)) for k in ('_read_lengths', '_read_slices', '_split_invariance', '_two_files', '_first_last', '_cache_sequence')}
+def at_bases(body, bases=(None, 0)):
+    """run a replay body once per base index (environment variable VERIF_REPLAY_BASE): with its default offset and with the raw indices of
+    the counterexample (absolute sample 0 is a legal index and must not be hidden by an offset)"""
+    return ('import subprocess, sys, os, tempfile\nbody = %r\nrc = 0\n'
+            'for base in %r:\n'
+            '    f = tempfile.NamedTemporaryFile("w", suffix=".py", delete=False); f.write("import sys; sys.path.insert(0, %r)\\n" + body); f.close()\n'
+            '    env = dict(os.environ)\n'
+            '    if base is not None: env["VERIF_REPLAY_BASE"] = str(base)\n'
+            '    r = subprocess.call([sys.executable, f.name], env=env); os.unlink(f.name)\n'
+            '    print("base", base, "-> exit", r)\n'
+            '    if r == 1: rc = 1\n'
+            '    elif r != 0 and rc == 0: rc = 3\n'
+            'sys.exit(rc)\n') % (body, tuple(bases), '/verif')
+
+
+READ_REPLAYS = {k: (lambda kw: at_bases(REPLAY_READ % (kw,))) for k in ('_read_lengths', '_read_slices', '_split_invariance', '_two_files', '_first_last', '_cache_sequence')}
 
 
 
@@ -330,7 +346,7 @@ if 'l3' in kw:
 else:
     starts = [a, a + kw['l1'] + kw['g1']]; lens = [kw['l1'], kw['l2']]
     order = [1, 0] if kw.get('swap') else [0, 1]
-S = 10**10
+S = int(os.environ.get('VERIF_REPLAY_BASE', 10**10))
 top = tempfile.mkdtemp(); dirs = []
 for k, bi in enumerate(order):
     d = os.path.join(top, 'top%%d' %% k); os.makedirs(d + '/ch'); dirs.append(d)
@@ -343,10 +359,10 @@ for s0, ln in sorted(zip(starts, lens)):
 r = drf.DigitalRFReader(dirs)
 bad = 0
 try:
-    data = r.read(S + starts[0] - 5, S + max(starts) + max(lens) + 5, 'ch')
+    data = r.read(max(0, S + starts[0] - 5), S + max(starts) + max(lens) + 5, 'ch')
     got = [[int(k) - S, len(v)] for k, v in data.items()]
     vals_ok = all(np.array_equal(np.asarray(v).ravel(), np.arange(int(k) - S, int(k) - S + len(v))) for k, v in data.items())
-    lens_ = [[int(k) - S, int(v)] for k, v in r.get_continuous_blocks(S + starts[0] - 5, S + max(starts) + max(lens) + 5, 'ch').items()]
+    lens_ = [[int(k) - S, int(v)] for k, v in r.get_continuous_blocks(max(0, S + starts[0] - 5), S + max(starts) + max(lens) + 5, 'ch').items()]
     if got != want or not vals_ok or lens_ != want: print('read ->', got, 'blocks ->', lens_, 'expected', want, 'values ok' if vals_ok else 'VALUES WRONG'); bad = 1
 except Exception as e:
     print('read raised', type(e).__name__, e); bad = 1
@@ -398,5 +414,30 @@ H.h5py = h5py
 shutil.rmtree(top)
 sys.exit(1 if bad else 0)
 '''
+REPLAY_APPEAR = '''
+# a long-lived reader: a read reaching beyond the finalized files (the newest file is still under its tmp. name), then the writer finalizes
+# the file, then the same reader reads again: everything finalized must be returned
+from vlib import build
+import numpy as np, tempfile, os, shutil, sys, glob, warnings
+warnings.simplefilter('ignore')
+drf = build.load_pkg()
+bad = 0
+for cont in (False, True):
+    top = tempfile.mkdtemp(); os.makedirs(top + '/ch')
+    S = 10**10
+    w = drf.DigitalRFWriter(top + '/ch', 'i2', 3600, 1000, S, 10, 1, 'u', is_complex=False, is_continuous=cont, marching_periods=False)
+    w.rf_write(np.arange(15, dtype='i2'))               # file 0 finalized, file 1 open (tmp.)
+    r = drf.DigitalRFReader(top)
+    first = r.read(S, S + 29, 'ch')
+    w.rf_write(np.arange(15, 30, dtype='i2')); w.close()   # files 1 and 2 finalized
+    second = r.read(S, S + 29, 'ch')
+    fresh = drf.DigitalRFReader(top).read(S, S + 29, 'ch')
+    got = sorted((k, len(v)) for k, v in second.items()); want = sorted((k, len(v)) for k, v in fresh.items())
+    print('continuous' if cont else 'gapped', 'first pass', sorted((k, len(v)) for k, v in first.items()), 'second pass', got, 'fresh reader', want)
+    if got != want or sum(n for _, n in got) != 30: bad = 1
+    shutil.rmtree(top)
+sys.exit(1 if bad else 0)
+'''
+READ_REPLAYS['_appearing_file'] = lambda kw: REPLAY_APPEAR
 READ_REPLAYS['_bounds_scan'] = lambda kw: REPLAY_BOUNDS_SCAN % (kw,)
-READ_REPLAYS['_combine3'] = READ_REPLAYS['_combine2_arrays'] = lambda kw: REPLAY_MERGE % (kw,)
+READ_REPLAYS['_combine3'] = READ_REPLAYS['_combine2_arrays'] = lambda kw: at_bases(REPLAY_MERGE % (kw,))
